@@ -232,10 +232,15 @@ def c_delete(ctx):
             # del state.flow_states[uid]
             if fn.name == "_clean_up_state":
                 # age-based deletion: only done instances are candidates, and done statuses are only stored after heads.clear()
-                tests = [m for m in cfg.nodes if m.kind == "test" and "_is_done_flow" in src(m.ast)]
-                coll = [m for m in cfg.nodes if m.kind == "stmt" and "states_to_be_removed.append" in src(m.ast)]
-                ok = bool(tests) and bool(coll) and all(any(cfg.dominates(t0, c) for t0 in tests) for c in coll) \
-                    and any(isinstance(a, ast.For) and "states_to_be_removed" in src(a.iter) for a in _anc(n, fn))
+                from ._railrules import cleanup_candidates
+                cands = cleanup_candidates(fn)
+                cvars = {re.sub(r"\W", "", v) for _, _, v in cands}
+                # the deletion loop iterates over the collected candidates (possibly after they were filtered into another local list derived from them)
+                derived = set(cvars)
+                for a_ in ast.walk(fn):
+                    if isinstance(a_, ast.Assign) and isinstance(a_.targets[0], ast.Name) and any(isinstance(x, ast.Name) and x.id in derived for x in ast.walk(a_.value)):
+                        derived.add(a_.targets[0].id)
+                ok = bool(cands) and any(isinstance(a, ast.For) and any(isinstance(x, ast.Name) and x.id in derived for x in ast.walk(a.iter)) for a in _anc(n, fn))
                 msg = "age-based deletion only removes instances collected under the done-status test (their heads were cleared when the status was stored)"
             else:
                 # any other deletion must de-register the heads of the deleted instance first (or abort it)
@@ -309,7 +314,8 @@ def d_writers(ctx):
     if add is None or rem is None:
         raise AnalysisError("index maintainers not found", anchor=SM + "::" + REG)
     a_src, r_src = re.sub(r"\s", "", src(add)), re.sub(r"\s", "", src(rem))
-    ok = "(flow_state.uid,head.uid)" in a_src and "flow_state.uid+head.uid" in a_src and "event_matching_heads_reverse_map.update" in a_src
+    ok = "(flow_state.uid,head.uid)" in a_src and "flow_state.uid+head.uid" in a_src and \
+        ("event_matching_heads_reverse_map.update" in a_src or "event_matching_heads_reverse_map[flow_state.uid+head.uid]=" in a_src)
     ctx.check("C09.d.maintainers", SM, REG, "adds to both maps", ok, "registration appends (flow uid, head uid) under the event name and records the event name in the reverse map under flow uid + head uid", line=add.lineno)
     ok = ".remove((flow_state.uid,head.uid))" in r_src and "event_matching_heads_reverse_map.pop(flow_state.uid+head.uid)" in r_src
     ctx.check("C09.d.maintainers", SM, DEREG, "removes from both maps", ok, "de-registration removes the same pair and the same reverse key", line=rem.lineno)
